@@ -4,7 +4,7 @@ import SiaModel.Gen.FactsIds
 import SiaModel.Gen.FactsSchema
 import SiaProofs.Lemmas.IdsSem
 import SiaProofs.Lemmas.IdsWF
-import SiaProofs.Props.C16
+import SiaProofs.Lemmas.PolicyMerkle
 /-!
 # C12 — IDs and sighashes bind exactly the effect-bearing content; block IDs bind all
 
@@ -75,6 +75,20 @@ theorem tie_block_id_bodies :
     Gen.FactsIds.leafHashPrefix_types = 0 ∧ Gen.FactsIds.leafHashPrefix_consensus = 0 ∧
     Gen.FactsIds.commitmentDistinguisher = "commitment" := by
   refine ⟨by rfl, by rfl, by rfl, by rfl, by rfl, by rfl, by rfl, by rfl⟩
+
+/-- the Merkle accumulator (`AddLeaf`, `Root`), the node hash (65 bytes `0x01 ‖ left ‖ right`), the leaf and
+node prefixes, and the block weight limit are the ones the model assumes -/
+theorem tie_accumulator :
+    Gen.FactsIds.accumulatorAddLeafBody = Spec.accumulatorAddLeafBody ∧ Gen.FactsIds.accumulatorRootBody = Spec.accumulatorRootBody ∧
+    Gen.FactsIds.accumulatorHasTreeBody = Spec.accumulatorHasTreeBody ∧ Gen.FactsIds.sumPairBody = Spec.sumPairBody ∧
+    Gen.FactsIds.hashBlockGenericBody = Spec.hashBlockGenericBody ∧
+    Gen.FactsIds.leafHashPrefix_blake2b = 0 ∧ Gen.FactsIds.nodeHashPrefix_blake2b = 1 := by
+  refine ⟨by rfl, by rfl, by rfl, by rfl, by rfl, by rfl, by rfl⟩
+
+theorem tie_block_weight :
+    Gen.FactsIds.maxBlockWeight = 2000000 ∧ Gen.FactsIds.maxBlockWeightBody = Spec.maxBlockWeightBody ∧
+    Gen.FactsIds.transactionWeightBody = Spec.transactionWeightBody := by
+  refine ⟨by rfl, by rfl, by rfl⟩
 
 theorem tie_v1_txn_bodies :
     Gen.FactsIds.txnSansSigsBody = Spec.txnSansSigsBody ∧ Gen.FactsIds.transactionEncodeBody = Spec.transactionEncodeBody := by
@@ -476,11 +490,12 @@ theorem c12_v1_derived_ids_distinct (H : List UInt8 → List UInt8) (hH : HashIn
   · exact hne b
   · exact hne c
 
-/-- v1 transaction ids carry NO distinguisher: a derived id `H (specifier ‖ body ‖ i)` differs from a
-bare transaction id `H (body'')` only because an encoded body starts with its number of siacoin inputs
-as 8 little-endian bytes, and the 8th byte of each specifier is not zero.  Stated bound: fewer than
-2^56 siacoin inputs. -/
-theorem c12_v1_derived_vs_txid_partial (k : V1Kind) (t : V1Txn) (i : Nat) (ins : List Val) (rest : Val)
+/-- v1 transaction ids carry NO distinguisher: a derived id is `H (specifier ‖ body ‖ i)`, a transaction id
+`H (body'')`.  The two preimages can only coincide if the encoded `body''` starts with the 16 specifier
+bytes, i.e. if its first field — the number of siacoin inputs, 8 little-endian bytes — reads as the first 8
+specifier bytes ("siacoin ", "siafund ", "file con": ≥ 2^61 inputs; in particular the 8th byte of each
+specifier is not zero).  Lemma: with fewer than 2^56 siacoin inputs the preimages differ. -/
+theorem v1_derived_vs_txid_of_bound (k : V1Kind) (t : V1Txn) (i : Nat) (ins : List Val) (rest : Val)
     (hn : ins.length < 2 ^ 56) :
     v1DerivedPre k t i ≠ enc Env.default v1BodySch (.pair (.list ins) rest) := by
   intro h
@@ -498,6 +513,42 @@ theorem c12_v1_derived_vs_txid_partial (k : V1Kind) (t : V1Txn) (i : Nat) (ins :
   have h7' : (v1DerivedPre k t i)[7]? = (enc Env.default v1BodySch (.pair (.list ins) rest))[7]? := h7
   rw [hs, he] at h7'
   cases k <;> exact absurd h7' (by decide)
+
+/-- a canonical v1 body is its list of siacoin inputs followed by the other fields, and its encoding is at
+least as long as that list (every encoded input occupies at least one byte — in fact 56) -/
+theorem v1_body_inputs_le_length (body : Val) (hc : Canon Env.default v1BodySch body) :
+    ∃ ins rest, body = .pair (.list ins) rest ∧ ins.length ≤ (enc Env.default v1BodySch body).length := by
+  cases body with
+  | pair a rest =>
+    cases a with
+    | list ins =>
+      refine ⟨ins, rest, rfl, ?_⟩
+      simp only [Canon, v1BodySch, Sch.seq, canon, Bool.and_eq_true, decide_eq_true_eq, List.all_eq_true] at hc
+      have hge : ins.length ≤ (encList (enc Env.default Spec.siacoinInput) ins).length :=
+        encList_length_ge (fun w hw => Nat.le_trans (by decide +kernel : 1 ≤ Spec.siacoinInput.minLen Env.default)
+          (C11.minLen_le Env.default_ok Spec.siacoinInput w (hc.1.2 w hw)))
+      simp only [v1BodySch, Sch.seq, enc, List.length_append]
+      omega
+    | _ => simp [Canon, v1BodySch, Sch.seq, canon] at hc
+  | _ => simp [Canon, v1BodySch, Sch.seq, canon] at hc
+
+/-- **c12_v1_derived_vs_txid**: a specifier-based derived id preimage differs from the id preimage of every
+well-formed v1 transaction whose encoding fits the block weight limit (`MaxBlockWeight` = 2,000,000 bytes,
+the weight of a v1 transaction being its encoded length; tied constants): such a transaction has fewer than
+2^56 siacoin inputs. Under `HashInj` a v1 derived id is therefore never the id of a transaction that can be
+in a block. -/
+theorem c12_v1_derived_vs_txid (k : V1Kind) (t t'' : V1Txn) (i : Nat) (hw : t''.WF)
+    (hlen : (v1BodyEnc t'').length ≤ Gen.FactsIds.maxBlockWeight) : v1DerivedPre k t i ≠ v1TxidPre t'' := by
+  obtain ⟨ins, rest, hb, hle⟩ := v1_body_inputs_le_length t''.body hw
+  have hn : ins.length < 2 ^ 56 := by
+    have h2 : (enc Env.default v1BodySch t''.body).length ≤ 2000000 := hlen
+    omega
+  have := v1_derived_vs_txid_of_bound k t i ins rest hn
+  simpa only [v1TxidPre, v1BodyEnc, hb] using this
+
+theorem c12_v1_derived_id_vs_txid (H : List UInt8 → List UInt8) (hH : HashInj H) (k : V1Kind) (t t'' : V1Txn) (i : Nat)
+    (hw : t''.WF) (hlen : (v1BodyEnc t'').length ≤ Gen.FactsIds.maxBlockWeight) : v1Derived H k t i ≠ v1Txid H t'' :=
+  fun h => c12_v1_derived_vs_txid k t t'' i hw hlen (hH _ _ h)
 
 /-! ## sighashes bind their purpose and their era -/
 
@@ -581,18 +632,20 @@ theorem c12_v1_sighash_binds_era (a b : UInt8) (hab : a ≠ b) (t t' : V1Txn) (v
 
 /-! ## block ids
 
-`Block.ID = HashBytes(ParentID ‖ Nonce ‖ Timestamp ‖ Commitment)`; the commitment is the Merkle root
-(`blake2b.Accumulator`, = the plain tree `metaRoot` by `C16.c16_accumulator_root`) over
-* v1: `H(0x00 ‖ payout)` for every miner payout, then `H(0x00 ‖ txn)` for every transaction;
-* v2: `H(0x00 ‖ "sia/commitment|" ‖ 2 ‖ H(parent state) ‖ miner address)`, then `H(0x00 ‖ txn)` for every
-  v1 and v2 transaction (FULL encodings: signatures, witnesses and proofs included).
+`Block.ID = HashBytes(ParentID ‖ Nonce ‖ Timestamp ‖ Commitment)`; the commitment is the root of a
+`blake2b.Accumulator` (= `Sia.Policy.merkleRootG`, tied by `tie_accumulator` and compared byte for byte with
+Go by the `merkle-v1` / `commitment` ops) whose leaves are BLAKE2b(0x00 ‖ data) and whose nodes are
+BLAKE2b(0x01 ‖ left ‖ right):
+* v1 (`blockMerkleRoot`): one leaf per miner payout, then one per transaction;
+* v2 (`State.Commitment`): the leaf `"sia/commitment|" ‖ 2 ‖ H(parent state) ‖ miner address`, then one leaf per
+  v1 and per v2 transaction (FULL encodings: signatures, witnesses and proofs included).
 
-Full statement:  c12_block_id_binds_all : two blocks with equal id are equal (v2: and were built on the
-same parent state for the same miner address).
-Proved in two layers: the header (`c12_block_id_binds_header`) and the commitment tree for blocks with
-the same number of leaves (`c12_block_commitment_binds_partial`); the GAP is the leaf count, which is
-bound only through the 0x00/0x01 domain separation of leaf and node hashes — not modelled here. The
-transaction encodings determine the transactions by C11 (`c11_injective`, `c11_v2txn_injective`). -/
+The hash algebra (`lf`, `nd`) is abstract with the HYPOTHESIS `Sia.Policy.HashInj lf nd`: leaf and node
+hashes are injective and a leaf hash is never a node hash — the symbolic form of "BLAKE2b is collision
+free on the tagged preimages" (`tagged_hashInj` derives it from injectivity of one hash function on the
+preimages `0x00 ‖ data` / `0x01 ‖ l ‖ r`, the node preimages having the fixed length 65).  Satisfiable by the
+free term algebra (`Sia.Policy.MTree.hashInj_free`).  Because leaves and nodes are disjoint the root
+determines the NUMBER of leaves too: no length hypothesis. -/
 
 /-- the header: equal ids ⇒ equal parent id, nonce, timestamp and commitment -/
 theorem c12_block_id_binds_header (H : List UInt8 → List UInt8) (hH : HashInj H) (p p' c c' : List UInt8) (n n' ts ts' : Nat)
@@ -605,48 +658,126 @@ theorem c12_block_id_binds_header (H : List UInt8 → List UInt8) (hH : HashInj 
   obtain ⟨e3, e4⟩ := List.append_inj h2 (by rw [u64le_length, u64le_length])
   exact ⟨e1, u64le_inj hn hn' e2, u64le_inj hts hts' e3, e4⟩
 
+theorem toBA_inj {a b : List UInt8} (h : toBA a = toBA b) : a = b := by
+  have := congrArg (fun x => x.data.toList) h
+  simpa [toBA] using this
+
+/-- the tagged hash algebra over ONE hash function with 32-byte digests: injectivity of that function (on the
+leaf preimages `0x00 ‖ data` and the 65-byte node preimages `0x01 ‖ l ‖ r`) gives `HashInj` -/
+theorem tagged_hashInj (H : ByteArray → { d : ByteArray // d.size = 32 }) (hH : ∀ a b, H a = H b → a = b) :
+    Sia.Policy.HashInj (fun d => H (Sia.Policy.byte 0 ++ d)) (fun l r => H (Sia.Policy.byte 1 ++ l.val ++ r.val)) := by
+  refine ⟨?_, ?_, ?_⟩
+  · intro a b h
+    exact (Sia.Policy.ba_append_inj (hH _ _ h) rfl).2
+  · intro a b c d h
+    have h1 := hH _ _ h
+    rw [ByteArray.append_assoc, ByteArray.append_assoc] at h1
+    have h2 := (Sia.Policy.ba_append_inj h1 rfl).2
+    obtain ⟨e1, e2⟩ := Sia.Policy.ba_append_inj h2 (by rw [a.2, c.2])
+    exact ⟨Subtype.ext e1, Subtype.ext e2⟩
+  · intro a b c h
+    have h1 := hH _ _ h
+    rw [ByteArray.append_assoc] at h1
+    have h2 := (Sia.Policy.ba_append_inj h1 rfl).1
+    have := congrArg (fun x => x.data.toList) h2
+    simp [Sia.Policy.byte] at this
+
 section commitment
-open Sia.Rhp
-variable {D : Type} [HashOps D]
+variable {D : Type} (lf : ByteArray → D) (nd : D → D → D) (zero : D)
 
-/-- the leaves of the v2 commitment tree: the state/miner leaf, then one leaf per transaction encoding -/
-def commitLeaves (leafH : List UInt8 → D) (stateHash minerAddr : List UInt8) (txnEncs : List (List UInt8)) : List D :=
-  leafH (commitmentLeafPre stateHash minerAddr) :: txnEncs.map (fun e => leafH (v1LeafPre e))
+theorem root_leaves_inj (hI : Sia.Policy.HashInj lf nd) (l l' : List (List UInt8)) (hl : l ≠ []) (hl' : l' ≠ [])
+    (h : Sia.Policy.merkleRootG nd zero (l.map (fun d => lf (toBA d))) = Sia.Policy.merkleRootG nd zero (l'.map (fun d => lf (toBA d)))) :
+    l = l' := by
+  have e : ∀ x : List (List UInt8), x.map (fun d => lf (toBA d)) = (x.map toBA).map lf := by intro x; simp
+  rw [e, e] at h
+  have := Sia.Policy.merkleRootG_inj hI zero (l.map toBA) (l'.map toBA) (by simpa using hl) (by simpa using hl') h
+  exact map_inj_of_inj (fun a b => toBA_inj) this
 
-/-- the leaves of the v1 block Merkle tree: payouts, then transactions -/
-def v1Leaves (leafH : List UInt8 → D) (payoutEncs txnEncs : List (List UInt8)) : List D :=
-  (payoutEncs ++ txnEncs).map (fun e => leafH (v1LeafPre e))
-
-/-- **c12_block_commitment_binds_partial** (v2): under node- and leaf-hash injectivity, for blocks with the
-same number of transactions, equal commitments ⇒ equal parent-state hash, equal miner address, equal
-transaction encodings (each with its signatures, witnesses and Merkle proofs). -/
-theorem c12_block_commitment_binds_partial (leafH : List UInt8 → D) (hN : NodeInj D) (hL : ∀ a b, leafH a = leafH b → a = b)
-    (sh sh' ma ma' : List UInt8) (txns txns' : List (List UInt8)) (hsh : sh.length = 32) (hsh' : sh'.length = 32)
-    (hlen : txns.length = txns'.length)
-    (h : metaRoot (commitLeaves leafH sh ma txns) = metaRoot (commitLeaves leafH sh' ma' txns')) :
-    sh = sh' ∧ ma = ma' ∧ txns = txns' := by
-  have hl := C16.c16_root_injective hN _ _ (by simp [commitLeaves, hlen]) h
-  simp only [commitLeaves, List.cons.injEq] at hl
+/-- **c12_block_commitment_binds** (v2): equal commitments ⇒ equal parent-state hash, equal miner address and the
+same sequence of transaction encodings (v1 transactions followed by v2 transactions: same number, same order,
+each with its signatures, witnesses and Merkle proofs); if the blocks have the same number of v1
+transactions, the v1 list and the v2 list are equal separately.  (Both kinds of transaction are hashed into
+the tree the same way, `0x00 ‖ encoding`; a v1 transaction could only pass for a v2 one if their encodings
+were the same byte string, which needs a v1 transaction with ≥ 258 siacoin inputs whose bytes parse as a v2
+transaction — not excluded here.)  The encodings determine the transactions by C11 (`c11_injective`,
+`c11_v2txn_injective`). -/
+theorem c12_block_commitment_binds (hI : Sia.Policy.HashInj lf nd) (sh sh' ma ma' : List UInt8) (v1 v1' v2 v2' : List (List UInt8))
+    (hsh : sh.length = 32) (hsh' : sh'.length = 32)
+    (h : commitmentG lf nd zero sh ma v1 v2 = commitmentG lf nd zero sh' ma' v1' v2') :
+    sh = sh' ∧ ma = ma' ∧ v1 ++ v2 = v1' ++ v2' ∧ (v1.length = v1'.length → v1 = v1' ∧ v2 = v2') := by
+  have hl := root_leaves_inj lf nd zero hI _ _ (List.cons_ne_nil _ _) (List.cons_ne_nil _ _) h
+  simp only [List.cons.injEq] at hl
   obtain ⟨h0, hr⟩ := hl
-  have h1 := hL _ _ h0
-  simp only [commitmentLeafPre, List.append_assoc] at h1
-  have h2 := List.append_cancel_left (List.append_cancel_left (List.append_cancel_left h1))
+  simp only [commitmentLeafData, List.append_assoc] at h0
+  have h2 := List.append_cancel_left (List.append_cancel_left h0)
   obtain ⟨e1, e2⟩ := List.append_inj h2 (by rw [hsh, hsh'])
-  refine ⟨e1, e2, ?_⟩
-  exact map_inj_of_inj (fun a a' ha => by have := hL _ _ ha; simpa [v1LeafPre] using this) hr
+  exact ⟨e1, e2, hr, fun hlen => List.append_inj hr hlen⟩
 
-/-- v1: equal Merkle roots ⇒ equal payout and transaction encodings (same number of leaves) -/
-theorem c12_block_merkle_root_binds_partial (leafH : List UInt8 → D) (hN : NodeInj D) (hL : ∀ a b, leafH a = leafH b → a = b)
-    (ls ls' : List (List UInt8)) (hlen : ls.length = ls'.length)
-    (h : metaRoot (v1Leaves leafH ls []) = metaRoot (v1Leaves leafH ls' [])) : ls = ls' := by
-  have hl := C16.c16_root_injective hN _ _ (by simp [v1Leaves, hlen]) h
-  simp only [v1Leaves, List.append_nil] at hl
-  exact map_inj_of_inj (fun a a' ha => by have := hL _ _ ha; simpa [v1LeafPre] using this) hl
+/-- two lists split at the point where a property of the elements flips -/
+theorem append_split_of_pred {α} (P : α → Prop) : ∀ (a a' b b' : List α), (∀ x ∈ a, P x) → (∀ x ∈ a', P x) →
+    (∀ x ∈ b, ¬ P x) → (∀ x ∈ b', ¬ P x) → a ++ b = a' ++ b' → a = a' ∧ b = b'
+  | [], [], _, _, _, _, _, _, h => ⟨rfl, h⟩
+  | [], y :: a', b, b', _, ha', hb, _, h => by
+    simp only [List.nil_append, List.cons_append] at h
+    exact absurd (ha' y List.mem_cons_self) (hb y (by rw [h]; exact List.mem_cons_self))
+  | x :: a, [], b, b', ha, _, _, hb', h => by
+    simp only [List.nil_append, List.cons_append] at h
+    exact absurd (ha x List.mem_cons_self) (hb' x (by rw [← h]; exact List.mem_cons_self))
+  | x :: a, y :: a', b, b', ha, ha', hb, hb', h => by
+    simp only [List.cons_append, List.cons.injEq] at h
+    obtain ⟨e1, e2⟩ := append_split_of_pred P a a' b b' (fun z hz => ha z (List.mem_cons_of_mem _ hz))
+      (fun z hz => ha' z (List.mem_cons_of_mem _ hz)) hb hb' h.2
+    exact ⟨by rw [h.1, e1], e2⟩
 
-/-- the hypotheses are satisfiable (free term algebra of C16) and the statement is not vacuous -/
-example : NodeInj C16.T ∧ (∀ a b : List UInt8, (C16.T.lf a) = C16.T.lf b → a = b) :=
-  ⟨C16.T_nodeInj, fun a b h => by cases h; rfl⟩
+/-- **c12_block_merkle_root_binds** (v1 header root): equal roots ⇒ the same miner payouts and the same
+transactions (same number, same order, full encodings).  Payout leaves and transaction leaves cannot be
+confused: an encoded payout has at most 56 bytes, an encoded transaction at least 80
+(`payout_enc_length_le`, `txn_enc_length_ge`). -/
+theorem c12_block_merkle_root_binds (hI : Sia.Policy.HashInj lf nd) (pay pay' txns txns' : List (List UInt8))
+    (hne : pay ++ txns ≠ []) (hne' : pay' ++ txns' ≠ [])
+    (hp : ∀ x ∈ pay, x.length ≤ 56) (hp' : ∀ x ∈ pay', x.length ≤ 56)
+    (ht : ∀ x ∈ txns, 80 ≤ x.length) (ht' : ∀ x ∈ txns', 80 ≤ x.length)
+    (h : blockMerkleRootG lf nd zero pay txns = blockMerkleRootG lf nd zero pay' txns') : pay = pay' ∧ txns = txns' := by
+  have hl := root_leaves_inj lf nd zero hI _ _ hne hne' h
+  exact append_split_of_pred (fun x : List UInt8 => x.length ≤ 56) pay pay' txns txns' hp hp'
+    (fun x hx => by have := ht x hx; omega) (fun x hx => by have := ht' x hx; omega) hl
 
 end commitment
+
+/-- an encoded miner payout (`V1SiacoinOutput`: length-prefixed trimmed big-endian value, address) has at most 56 bytes -/
+theorem payout_enc_length_le (v : Val) (hc : Canon Env.default Spec.v1SiacoinOutput v) :
+    (enc Env.default Spec.v1SiacoinOutput v).length ≤ 56 := by
+  cases v with
+  | pair a r =>
+    cases a with
+    | nat n =>
+      cases r with
+      | pair b u =>
+        cases b with
+        | bytes ad =>
+          simp only [Canon, Spec.v1SiacoinOutput, Spec.hash32, Sch.seq, canon, Atom.codec, isBytes, isNat, Bool.and_eq_true,
+            decide_eq_true_eq, beq_iff_eq] at hc
+          have ht := trimZeros_length_le (be16 n)
+          rw [be16_length] at ht
+          simp only [Spec.v1SiacoinOutput, Spec.hash32, Sch.seq, enc, Atom.codec, encCur1, List.length_append, u64le_length, hc.2.1]
+          cases u <;> simp [enc] <;> omega
+        | _ => simp [Canon, Spec.v1SiacoinOutput, Spec.hash32, Sch.seq, canon, Atom.codec, isBytes] at hc
+      | _ => simp [Canon, Spec.v1SiacoinOutput, Sch.seq, canon] at hc
+    | _ => simp [Canon, Spec.v1SiacoinOutput, Sch.seq, canon, Atom.codec, isNat] at hc
+  | _ => simp [Canon, Spec.v1SiacoinOutput, Sch.seq, canon] at hc
+
+/-- an encoded v1 transaction has at least 80 bytes (ten length prefixes) -/
+theorem txn_enc_length_ge (v : Val) (hc : Canon Env.default Spec.transaction v) :
+    80 ≤ (enc Env.default Spec.transaction v).length :=
+  Nat.le_trans (by decide +kernel : 80 ≤ Spec.transaction.minLen Env.default) (C11.minLen_le Env.default_ok Spec.transaction v hc)
+
+/-- the hypotheses are satisfiable (free term algebra) and the statement is not vacuous: two commitments
+over different transaction lists are different terms -/
+example : Sia.Policy.HashInj Sia.Policy.MTree.leaf Sia.Policy.MTree.node := Sia.Policy.MTree.hashInj_free
+example : commitmentG Sia.Policy.MTree.leaf Sia.Policy.MTree.node (Sia.Policy.MTree.leaf ByteArray.empty) z32 z32 [[1]] [[2]] ≠
+    commitmentG Sia.Policy.MTree.leaf Sia.Policy.MTree.node (Sia.Policy.MTree.leaf ByteArray.empty) z32 z32 [[2]] [[1]] := by
+  intro h
+  have := (c12_block_commitment_binds _ _ _ Sia.Policy.MTree.hashInj_free z32 z32 z32 z32 [[1]] [[2]] [[2]] [[1]] (by decide) (by decide) h).2.2.2 rfl
+  exact absurd this.1 (by decide)
 
 end C12
